@@ -23,6 +23,8 @@ def known_id(fam):
     """which known finding (if any) covers this family"""
     if fam.get('kind') == 'lines':
         return 'C16-repeated-twprge' if TWPRGE_ANY.search(fam['unit']) else None
+    if fam.get('kind') in ('texts', 'repeat'):
+        return None
     u, p = fam['unit'], fam['prefix']
     if NUM_END.search(p) and re.search(r'\s', u) and INTERVENER_RUN.fullmatch(u):
         return 'C16-intervener-run'
@@ -56,7 +58,12 @@ def run(tier, mode):
             at = again['at'] or x['at'] or {}
             n = at.get('n')
             fam = x['fam']
-            text = (fam['sep'].join([fam['unit']] * n)) if fam.get('kind') == 'lines' else fam['prefix'] + fam['unit'] * (n or 0) + fam['suffix']
+            if fam.get('kind') == 'texts':
+                text = fam['texts'][n] if n is not None and n < len(fam['texts']) else ''
+            elif fam.get('kind') == 'repeat':
+                text = f"{n} x PLSSDesc({fam['unit']!r}, config={fam['config']!r}) then PLSSDesc({fam['unit']!r}, parse_qq=True)"
+            else:
+                text = (fam['sep'].join([fam['unit']] * n)) if fam.get('kind') == 'lines' else fam['prefix'] + fam['unit'] * (n or 0) + fam['suffix']
             fails.append({'kind': 'slow_input', 'detail': {'family': x['id'], 'n': n, 'len': at.get('len'), 'text': text, 'killed': again['killed']},
                           'got': f"cpu > 2 s (cpu={at.get('cpu')}, killed={again['killed']})", 'want': '<= 2 s for <= 300 characters', 'known_id': known_id(fam)})
         else:
